@@ -196,9 +196,12 @@ pub(crate) fn process_single_response(
 
 			let result = ResponseSuccess::try_from(response.into_inner());
 
+			// NOTE: if the subscription isn't established no unsubscribe call will be made and
+			// the slot that was reserved for it must be released.
 			let json = match result {
 				Ok(s) => s.result,
 				Err(e) => {
+					manager.remove_reserved_unsubscribe_slot(&unsub_id);
 					let _ = send_back_oneshot.send(Err(Error::Call(e)));
 					return Ok(None);
 				}
@@ -207,6 +210,7 @@ pub(crate) fn process_single_response(
 			let sub_id = match serde_json::from_str::<SubscriptionId>(json.get()) {
 				Ok(s) => s.into_owned(),
 				Err(e) => {
+					manager.remove_reserved_unsubscribe_slot(&unsub_id);
 					let _ = send_back_oneshot.send(Err(e.into()));
 					return Ok(None);
 				}
@@ -214,7 +218,13 @@ pub(crate) fn process_single_response(
 
 			let (subscribe_tx, subscribe_rx) = subscription_channel(max_capacity_per_subscription);
 			if manager
-				.insert_subscription(response_id.clone(), unsub_id, sub_id.clone(), subscribe_tx, unsubscribe_method)
+				.insert_subscription(
+					response_id.clone(),
+					unsub_id.clone(),
+					sub_id.clone(),
+					subscribe_tx,
+					unsubscribe_method,
+				)
 				.is_ok()
 			{
 				match send_back_oneshot.send(Ok((subscribe_rx, sub_id.clone()))) {
@@ -222,6 +232,7 @@ pub(crate) fn process_single_response(
 					Err(_) => Ok(build_unsubscribe_message(manager, response_id, sub_id)),
 				}
 			} else {
+				manager.remove_reserved_unsubscribe_slot(&unsub_id);
 				let _ = send_back_oneshot.send(Err(Error::InvalidSubscriptionId));
 				Ok(None)
 			}
